@@ -33,6 +33,9 @@ Inductive gerr :=
 | EType            (* TypeError *)
 | EKey             (* KeyError *)
 | EIndex           (* IndexError *)
+| EParser          (* xsdata.exceptions.ParserError (Model/DictCodec.v) *)
+| EConverter       (* xsdata.exceptions.ConverterError *)
+| EAmbiguous       (* the implementation's answer depends on set iteration order: any candidate *)
 | EFuel            (* model ran out of fuel: never an implementation outcome *)
 | EUnmodelled.     (* input outside the modelled fragment: never an implementation outcome *)
 
@@ -56,7 +59,8 @@ Definition concatM {A B} (f : A -> gres (list B)) (l : list A) : gres (list B) :
 Definition gerr_eqb (a b : gerr) : bool :=
   match a, b with
   | ESerializer, ESerializer | EContext, EContext | EAttribute, EAttribute | EType, EType
-  | EKey, EKey | EIndex, EIndex | EFuel, EFuel | EUnmodelled, EUnmodelled => true
+  | EKey, EKey | EIndex, EIndex | EFuel, EFuel | EUnmodelled, EUnmodelled
+  | EParser, EParser | EConverter, EConverter | EAmbiguous, EAmbiguous => true
   | _, _ => false
   end.
 
